@@ -3,7 +3,7 @@ from __future__ import annotations
 import ast, builtins, inspect, types, enum, operator, re
 import z3
 from .sym import (Sym, SInt, SReal, SBool, SStr, SList, FList, SObj, SRange, SDict, Lit, Hole, Unsupported,
-                  SymMisuse, is_sym, mkstr, subst_value, IntCodec, as_segs)
+                  SymMisuse, is_sym, mkstr, subst_value, IntCodec, as_segs, SymProto)
 from .ops import truth_term, term_of, wrap_term, sbool_and, sbool_or, sbool_not, str_eq
 from . import ops
 
@@ -86,6 +86,8 @@ def format_value(interp, v, spec):
         if spec == "":
             return to_str(interp, v)
         return interp.ctx.format_numeric(interp, v, spec)
+    if isinstance(v, SObj):
+        return interp.ctx.obj_format(interp, v, spec)
     if isinstance(v, Sym):
         raise Unsupported(f"format of {type(v).__name__}")
     fmt = _static(type(v), "__format__")
@@ -217,6 +219,8 @@ STR_METHODS = {}
 
 
 def call_sym_method(interp, recv, name, args, kwargs):
+    if isinstance(recv, SymProto):
+        return recv._vf("vf_method")(interp, name, args, kwargs)
     if isinstance(recv, (SStr, str)):
         if name == "join":
             return join(interp, recv, args[0])
@@ -400,6 +404,8 @@ def flist_method(interp, lst: FList, name, args, kwargs):
 
 def get_item(interp, obj, idx):
     from .interp import PyRaise
+    if isinstance(obj, SymProto):
+        return obj._vf("vf_getitem")(interp, idx)
     if isinstance(obj, SList):
         if isinstance(idx, slice):
             raise Unsupported("slice of symbolic list")
@@ -436,6 +442,8 @@ def get_item(interp, obj, idx):
 
 def set_item(interp, obj, idx, v):
     from .interp import PyRaise
+    if isinstance(obj, SymProto):
+        return obj._vf("vf_setitem")(interp, idx, v)
     if isinstance(obj, SList):
         it = idx.t if isinstance(idx, SInt) else z3.IntVal(idx)
         interp.prove(z3.And(it >= 0, it < obj.length), "py/store-in-bounds", detail=f"{obj!r}[{it}] = ...")
@@ -469,7 +477,7 @@ def get_attr(interp, obj, name):
     from .interp import PyRaise
     if isinstance(obj, SObj):
         return interp.ctx.obj_getattr(interp, obj, name)
-    if isinstance(obj, (SStr, SList, FList, SDict)):
+    if isinstance(obj, (SStr, SList, FList, SDict, SymProto)):
         return __import__("pyvc.interp", fromlist=["BoundSym"]).BoundSym(obj, name)
     from . import setmodel
     if isinstance(obj, setmodel.SSet):
@@ -519,6 +527,10 @@ def set_attr(interp, obj, name, v):
 
 # ------------------------------------------------------------------ equality, membership
 def equals(interp, a, b):
+    if isinstance(a, SymProto) and hasattr(a, "vf_eq"):
+        return a.vf_eq(interp, b)
+    if isinstance(b, SymProto) and hasattr(b, "vf_eq"):
+        return b.vf_eq(interp, a)
     if isinstance(a, SObj) or isinstance(b, SObj):
         return interp.ctx.obj_equals(interp, a, b)
     if isinstance(a, (SStr,)) or isinstance(b, (SStr,)):
@@ -563,6 +575,8 @@ def is_none(interp, v):
 
 def contains(interp, container, x):
     from . import setmodel
+    if isinstance(container, SymProto):
+        return container._vf("vf_contains")(interp, x)
     if isinstance(container, setmodel.SSet):
         return setmodel.sset_contains(interp, container, x)
     if isinstance(container, (SList, FList)):
@@ -626,6 +640,8 @@ def sym_compare(interp, op, a, b):
 @model(len)
 def _len(interp, args, kwargs):
     (x,) = args
+    if isinstance(x, SymProto):
+        return x._vf("vf_len")(interp)
     if isinstance(x, (SList, FList)):
         return wrap_term(x.length)
     if isinstance(x, SRange):
@@ -910,8 +926,9 @@ def _getattr(interp, args, kwargs):
 @model(hash)
 def _hash(interp, args, kwargs):
     (x,) = args
-    if isinstance(x, Sym):
-        raise Unsupported("hash of symbolic value")
+    if isinstance(x, Sym) or (isinstance(x, tuple) and is_sym(x)):
+        from . import hashmodel
+        return hashmodel.hash_of(interp, x)
     hf = _static(type(x), "__hash__")
     if isinstance(hf, types.FunctionType) and interp.ctx.interpret_module(hf.__module__ or ""):
         return interp.call_function(hf, [x], {})
@@ -923,3 +940,5 @@ def _type(interp, args, kwargs):
     if len(args) == 1 and isinstance(args[0], Sym):
         raise Unsupported("type() of symbolic value")
     return type(*args)
+
+from . import hashmodel  # noqa: E402  (registers the Counter / frozenset / hash models)
